@@ -51,7 +51,7 @@ type c04Vec struct {
 // "dup" (query parameters only): the parameter is given twice, a harmless value
 // first and the path-like value last; whichever occurrence a reader picks, nothing
 // outside the scope of the named object may be touched
-var c04Spellings = []string{"raw", "pctdot", "pctslash", "double", "mixed", "backslash", "nul", "unicode", "dup"}
+var c04Spellings = []string{"raw", "pctdot", "pctslash", "double", "mixed", "backslash", "nul", "unicode", "dup", "badutf8"}
 
 // c04Spell renders concrete segments in one spelling. The result is what goes
 // on the wire in a URL path, a query value or the copy-source header (all of
@@ -106,6 +106,25 @@ func c04Spell(segs []string, sp string) string {
 		return strings.Join(segs, "/") + "%00"
 	case "unicode":
 		return strings.Join(enc("%EF%BC%8E"), "/")
+	case "badutf8":
+		// a byte that is not valid UTF-8 inside every dot segment and in front of every
+		// name that begins with a dot: as sent these are ordinary (opaque) names; a
+		// gateway that drops or replaces such bytes AFTER its checks turns them into
+		// dot segments / reserved names
+		out := make([]string, len(segs))
+		for i, sg := range segs {
+			switch {
+			case sg == "..":
+				out[i] = ".%FF."
+			case sg == ".":
+				out[i] = "%FF."
+			case strings.HasPrefix(sg, "."):
+				out[i] = "%FF" + sg
+			default:
+				out[i] = sg
+			}
+		}
+		return strings.Join(out, "/")
 	}
 	return strings.Join(segs, "/")
 }
@@ -799,7 +818,7 @@ func c04Region(class string) (eff, target string) {
 }
 
 func C04(c *core.Ctx, replay string) {
-	c.Rule = "TLC enumerates, per client-controlled path-like parameter (13 kinds; the id markers of the version and upload listings are kinds of their own, based where a direct look-up would join them), every segment sequence up to the tier's depth over {name, '.', '..', empty} and binds the names to every planted target the raw join can reach (plus a fresh name); each (vector, aim) is sent in 9 spellings (raw, percent-encoded dots / slashes, double-encoded, mixed, backslash, NUL, fullwidth dot, and - for query parameters - given twice with a harmless value first) over the routes that carry the parameter, as the bucket owner and as root, against a gateway whose storage carries canaries in every area and beside the root. Non-trivial: a case whose literal value is not well-formed (dot / empty / NUL segments or a reserved name) and that the gateway answered 2xx or that changed or disclosed anything. Existence differential: where a dot segment precedes the names of the value, the reply to the value aimed at a planted location must have the same shape (status, code, number of listed entries) as the reply to the same value with fresh names - otherwise the value was resolved there (class resolve:<region>)."
+	c.Rule = "TLC enumerates, per client-controlled path-like parameter (13 kinds; the id markers of the version and upload listings are kinds of their own, based where a direct look-up would join them), every segment sequence up to the tier's depth over {name, '.', '..', empty} and binds the names to every planted target the raw join can reach (plus a fresh name); each (vector, aim) is sent in 10 spellings (raw, percent-encoded dots / slashes, double-encoded, mixed, backslash, NUL, fullwidth dot, an invalid UTF-8 byte inside every dot segment, and - for query parameters - given twice with a harmless value first) over the routes that carry the parameter, as the bucket owner and as root, against a gateway whose storage carries canaries in every area and beside the root. Non-trivial: a case whose literal value is not well-formed (dot / empty / NUL segments or a reserved name) and that the gateway answered 2xx or that changed or disclosed anything. Existence differential: where a dot segment precedes the names of the value, the reply to the value aimed at a planted location must have the same shape (status, code, number of listed entries) as the reply to the same value with fresh names - otherwise the value was resolved there (class resolve:<region>)."
 	c.Assumptions = []string{
 		"a location is 'changed' iff its type, content hash or user xattrs differ between byte-exact snapshots of the whole scratch tree (8 directory levels around the gateway root) taken before and after the request; timestamps are not compared",
 		"a reply 'discloses' a planted location iff it contains that location's content token, unique name or metadata token and the request did not",
